@@ -287,6 +287,9 @@ func (ps *specParser) parseUnary() SExpr {
 	if ps.accept("-") {
 		return &SUn{"-", ps.parseUnary()}
 	}
+	if ps.accept("*") {
+		return &SUn{"*", ps.parseUnary()}
+	}
 	return ps.parsePostfix()
 }
 func (ps *specParser) parsePostfix() SExpr {
